@@ -36,8 +36,7 @@ package evm
 //@   ensures forall a :: has(s.accessedObjAddrs, a) ==> s.accessedObjAddrs[a] == old(s.accessedObjAddrs[a])   [C17]
 //@   loop 0: modifies elems(revertAddrs)
 //@   loop 0: invariant revertAddrs == nil || loopfresh(revertAddrs)
-//@   loop 0: invariant forall i :: 0 <= i && i < len(revertAddrs) ==> visited(revertAddrs[i]) && snapshot < s.accessedObjAddrs[revertAddrs[i]]
-//@   loop 0: invariant forall a :: visited(a) && snapshot < s.accessedObjAddrs[a] ==> (exists i :: 0 <= i && i < len(revertAddrs) && revertAddrs[i] == a)
+//@   loop 0: invariant forall a :: inlist(revertAddrs, a) <==> (visited(a) && snapshot < s.accessedObjAddrs[a])
 //@   loop 0: invariant forall a :: visited(a) ==> has(s.accessedObjAddrs, a)
 //@   loop 1: modifies mapof(s.accessedObjAddrs)
 //@   loop 1: invariant forall a :: has(s.accessedObjAddrs, a) <==> (old(has(s.accessedObjAddrs, a)) && !(exists i :: 0 <= i && i <= rangeindex && revertAddrs[i] == a))
